@@ -19,7 +19,8 @@ func init() {
 			"R2 no symlink following — discovery walks with filepath.Walk/WalkDir (Lstat based) and the code reachable from findFiles calls no os.Stat, os.Open, filepath.EvalSymlinks or os.Readlink; the regular-file test is made on the entry the walker handed in; " +
 			"R3 each file once, in fixed order — every argument is walked (the loop over the patterns parameter covers all of them, none is filtered away), results are de-duplicated by absolute path and sorted by it, and Run iterates once over exactly that slice; " +
 			"R4 argument normalisation — the root walked is the argument with a trailing \"...\" trimmed, joined to the working directory when relative and cleaned when absolute. " +
-			"NOT decided: operating-system semantics of Walk and of path cleaning.",
+			"NOT decided: operating-system semantics of Walk and of path cleaning." +
+			" R6 the compiled patch does not remember earlier files.",
 		Trusted:     append([]string{"filepath.Walk and filepath.WalkDir use Lstat and do not follow symbolic links"}, commonTrusted...),
 		Assumptions: commonAssumptions,
 	})
